@@ -10,6 +10,34 @@ import os, json, vlib, gen, hist
 from props import imgprop, C10
 PID = "C11"
 
+_BIG = {}
+def bmext_hostile(exe, rng, i):
+    """a library-made hardfile of more than 101602 blocks (26+ bitmap pages, one bitmap-extension block) whose extension
+    block / root pointers are redirected"""
+    import struct
+    n = [101700, 110000, 130000][i % 3]
+    dt = rng.randrange(8)
+    pre = [f"newdev 0 {n} 1 1", "clock 2020 2 2 2 2 2", f"mkhdf 0 {gen.hx(b'big')} {dt}", "closedev 0"]
+    if n not in _BIG:
+        # where the library put the extension block: read it from an image made by the library itself
+        p = os.path.join(vlib.scratch(), f"big_{n}.img")
+        vlib.run_c(exe, pre[:2] + [f"mkhdf 0 {gen.hx(b'big')} 0", f"dumpimg 0 {p}", "closedev 0"], timeout=120)
+        with open(p, "rb") as fh:
+            fh.seek((n // 2) * 512 + 416); _BIG[n] = struct.unpack(">I", fh.read(4))[0]
+        os.unlink(p)
+    ext = _BIG[n]; root = n // 2
+    choices = [
+        [(ext * 512 + 508, ext)],                                  # next -> itself
+        [(ext * 512 + 0, 0), (ext * 512 + 508, ext)],              # first page pointer 0 and next -> itself
+        [(ext * 512 + 508, root)],                                 # next -> root block
+        [(root * 512 + 416, root)],                                # root.bmExt -> root
+        [(ext * 512 + 0, 0), (ext * 512 + 4, 0), (ext * 512 + 508, ext)],
+        [(ext * 512 + 508, rng.randrange(2, n))],
+        [(ext * 512 + 4 * rng.randrange(127), rng.choice([0, ext, root, 0xffffffff])), (ext * 512 + 508, ext)],
+    ]
+    muts = [f"pokeimg 0 {off} {struct.pack('>I', v).hex()}" for off, v in choices[i % len(choices)]]
+    return pre + muts + ["opendev 0 1", "mount 0 0 1", "free 0 0", "list 0 0 0", "unmount 0 0", "closedev 0"]
+
 def run(res):
     res.cov["rule"] = ("images by the independent writer with 1..5 pointers (nextSameHash, extension, firstData, hash slots, bmExt, parent, realEntry) redirected to "
                        "self / root / another metadata block, checksums re-fixed (80%); plus corrupted PART/FSHD/LSEG next pointers; every operation under a read limit; distinct by image bytes")
@@ -24,6 +52,15 @@ def run(res):
         cb, paths, tie, san, crash, fault = hist.run_plain(exe, ops)
         return dict(ops=ops, cb=cb, tie=tie, san=san, crash=crash, fault=fault)
     with ThreadPoolExecutor(12) as ex: rdb = list(ex.map(one, range(n // 3)))
+    # volumes with more than 25 bitmap pages: the bitmap-extension chain redirected (to itself, to the root, with leading zero
+    # page pointers): the bitmap loader is on the path of every mount
+    def big(i):
+        rng = vlib.rng_for(res.seed, f"C11big/{i}")
+        ops = ["readlimit 20000"] + bmext_hostile(exe, rng, i)
+        cb, paths, tie, san, crash, fault = hist.run_plain(exe, ops, timeout=120)
+        return dict(ops=ops, cb=cb, tie=tie, san=san, crash=crash, fault=fault)
+    rdb.append(big(0)); rdb.append(big(1)); rdb.append(big(2))        # (fills the cache of extension-block positions)
+    with ThreadPoolExecutor(4) as ex: rdb += list(ex.map(big, range(3, 7 if res.tier == "quick" else 60)))
     bad, ties = [], []
     for r in results:
         res.note_case(("img", tuple(r["muts"])), None)
